@@ -35,41 +35,54 @@ NeedWith(anns) == "Value" \in anns \/ "With" \in anns
 NeedBuilder(anns) == "Value" \in anns \/ "Builder" \in anns
 
 \* ---------------- the abstract machine ----------------
+\* A value is a function from field index to an abstract field value.  The operators below are the meaning of the generated API;
+\* the bounded model (MCGombok) instantiates them with small integers and checks the laws for every shape of up to three
+\* fields, the trace specification (TraceGombok) evaluates the same operators on the digests of real field values logged by
+\* the driver for every call it makes on gombok's output.
+CONSTANTS SomeOf(_), NoneV          \* how an Option field value is written: Some(v), None
+WithOps == {"with", "bset", "withsome", "bsome", "withnone", "bnone"}
+ReprOps == {"tuple", "unapply", "labelled", "mutable", "map"}
+OpWith(xx, i, v) == [xx EXCEPT ![i] = v]
+\* the representations (tuple, Unapply arguments, labelled tuple, Mutable struct, map by field name - a None is left out of the
+\* map) carry the active fields in declaration order; rebuilding from them on a zero builder restores exactly those
+OpRepr(sh, xx, zz) == [i \in DOMAIN sh |-> IF i \in Active(sh) THEN xx[i] ELSE zz[i]]
+OpEnabled(sh, op, i) == /\ op \in WithOps => i \in Private(sh)
+                        /\ op \in {"withsome", "bsome", "withnone", "bnone"} => sh[i].opt
+Expected(sh, op, xx, i, v, zz) ==
+  CASE op \in {"with", "bset"} -> OpWith(xx, i, v)
+    [] op \in {"withsome", "bsome"} -> OpWith(xx, i, SomeOf(v))
+    [] op \in {"withnone", "bnone"} -> OpWith(xx, i, NoneV)
+    [] op \in ReprOps -> OpRepr(sh, xx, zz)
+    [] op = "builder" -> xx
+
 FieldSpace == [vis : {"private", "public", "underscore"}, opt : BOOLEAN, emptyembedded : {FALSE}]
 Shapes == UNION {[1..n -> FieldSpace] : n \in 1..3}
-\* abstract field values: plain fields hold 0..1, Option fields None (= -1) or Some(v) (= v)
-None == -1
-Vals(f) == IF f.opt THEN {None, 0, 1} ELSE {0, 1}
+\* abstract field values of the bounded model: plain fields hold 0..1, Option fields NoneV or SomeOf(v)
+Vals(f) == IF f.opt THEN {NoneV, SomeOf(0), SomeOf(1)} ELSE {0, 1}
 VARIABLES shape, x, y, step
 gbvars == <<shape, x, y, step>>
-Values(sh) == {v \in [DOMAIN sh -> {None, 0, 1}] : \A i \in DOMAIN sh : v[i] \in Vals(sh[i])}
+AllVals == {NoneV, 0, 1, SomeOf(0), SomeOf(1)}
+Values(sh) == {v \in [DOMAIN sh -> AllVals] : \A i \in DOMAIN sh : v[i] \in Vals(sh[i])}
+ZeroOf(f) == IF f.opt THEN NoneV ELSE 0
+ZeroVal(sh) == [i \in DOMAIN sh |-> ZeroOf(sh[i])]
 GInit == shape \in Shapes /\ x \in Values(shape) /\ y = x /\ step = <<"init", 0, 0>>
-\* getters read, With replaces one private field
-With(i, v) == i \in Private(shape) /\ v \in Vals(shape[i]) /\ y' = [x EXCEPT ![i] = v] /\ step' = <<"with", i, v>> /\ UNCHANGED <<shape, x>>
-WithSome(i, v) == i \in Private(shape) /\ shape[i].opt /\ v \in {0, 1} /\ y' = [x EXCEPT ![i] = v] /\ step' = <<"withsome", i, v>> /\ UNCHANGED <<shape, x>>
-WithNone(i) == i \in Private(shape) /\ shape[i].opt /\ y' = [x EXCEPT ![i] = None] /\ step' = <<"withnone", i, 0>> /\ UNCHANGED <<shape, x>>
-\* the representations: tuple = the active fields in declaration order; map = the active fields by name, None omitted;
-\* rebuilding from them on a zero builder restores every active field and leaves the others zero
-ZeroOf(f) == IF f.opt THEN None ELSE 0
-ViaTuple == /\ y' = [i \in DOMAIN shape |-> IF i \in Active(shape) THEN x[i] ELSE ZeroOf(shape[i])]
-            /\ step' = <<"tuple", 0, 0>> /\ UNCHANGED <<shape, x>>
-MapOf(v) == [i \in {j \in Active(shape) : ~(shape[j].opt /\ v[j] = None)} |-> v[i]]
-ViaMap == /\ LET m == MapOf(x) IN
-             y' = [i \in DOMAIN shape |-> IF i \in DOMAIN m THEN m[i] ELSE ZeroOf(shape[i])]
-          /\ step' = <<"map", 0, 0>> /\ UNCHANGED <<shape, x>>
-ViaBuilder == y' = x /\ step' = <<"builder", 0, 0>> /\ UNCHANGED <<shape, x>>
-GNext == (\E i \in DOMAIN shape : (\E v \in {None, 0, 1} : With(i, v)) \/ (\E v \in {0, 1} : WithSome(i, v)) \/ WithNone(i))
-         \/ ViaTuple \/ ViaMap \/ ViaBuilder
+Do(op, i, v) == /\ OpEnabled(shape, op, i)
+                /\ y' = Expected(shape, op, x, i, v, ZeroVal(shape))
+                /\ step' = <<op, i, v>> /\ UNCHANGED <<shape, x>>
+GNext == \/ \E i \in DOMAIN shape : \/ \E v \in Vals(shape[i]) : Do("with", i, v) \/ Do("bset", i, v)
+                                    \/ \E v \in {0, 1} : Do("withsome", i, v) \/ Do("bsome", i, v)
+                                    \/ Do("withnone", i, 0) \/ Do("bnone", i, 0)
+         \/ \E op \in ReprOps \cup {"builder"} : Do(op, 0, 0)
 GSpec == GInit /\ [][GNext]_gbvars
 
 SameActive(u, v) == \A i \in Active(shape) : u[i] = v[i]
-\* WithF(v) replaces field F and nothing else
-WithLaw == step[1] \in {"with", "withsome", "withnone"} =>
+\* WithF(v) (and the builder setter) replaces field F and nothing else
+WithLaw == step[1] \in WithOps =>
              /\ \A j \in DOMAIN shape : j # step[2] => y[j] = x[j]
-             /\ (step[1] = "with" => y[step[2]] = step[3])
-             /\ (step[1] = "withsome" => y[step[2]] = step[3])
-             /\ (step[1] = "withnone" => y[step[2]] = None)
+             /\ (step[1] \in {"with", "bset"} => y[step[2]] = step[3])
+             /\ (step[1] \in {"withsome", "bsome"} => y[step[2]] = SomeOf(step[3]))
+             /\ (step[1] \in {"withnone", "bnone"} => y[step[2]] = NoneV)
 \* the conversions are mutually inverse on the active fields and keep declaration order
-RoundTripLaw == step[1] \in {"tuple", "map"} => SameActive(x, y)
+RoundTripLaw == step[1] \in ReprOps => SameActive(x, y)
 BuilderLaw == step[1] = "builder" => y = x
 =============================================================================
